@@ -60,6 +60,8 @@ pub enum ValSel {
     FillTo(i8, u8),
     /// patterned value of the given length
     Sized(u16, u8),
+    /// value sized so that the request's body is item_limit + 1 + k (must be refused with 'too large')
+    OverLimit(u8, u8),
 }
 
 #[derive(Clone, Debug, Serialize, Deserialize, PartialEq, Eq, Hash)]
@@ -285,12 +287,14 @@ pub fn val_strategy(cfg: &GenCfg, concat: bool) -> BoxedStrategy<ValSel> {
         prop_oneof![
             3 => (-2i8..=2, any::<u8>()).prop_map(|(d, s)| ValSel::FillTo(d, s)),
             1 => (0u8..3, any::<u8>()).prop_map(|(k, s)| ValSel::BodyAtLimit(k, s)),
+            1 => (prop_oneof![Just(0u8), Just(1u8), any::<u8>()], any::<u8>()).prop_map(|(k, s)| ValSel::OverLimit(k, s)),
         ]
         .boxed()
     } else {
         prop_oneof![
             3 => (0u8..3, any::<u8>()).prop_map(|(k, s)| ValSel::BodyAtLimit(k, s)),
             1 => (300u16..1000, any::<u8>()).prop_map(|(n, s)| ValSel::Sized(n, s)),
+            1 => (prop_oneof![Just(0u8), Just(1u8), any::<u8>()], any::<u8>()).prop_map(|(k, s)| ValSel::OverLimit(k, s)),
         ]
         .boxed()
     };
@@ -622,6 +626,10 @@ impl Interp {
                 let overhead = if concat { key.len() } else { key.len() + 8 };
                 patterned(limit.saturating_sub(overhead).saturating_sub(*k as usize), *s)
             }
+            ValSel::OverLimit(k, s) => {
+                let overhead = if concat { key.len() } else { key.len() + 8 };
+                patterned(limit.saturating_sub(overhead) + 1 + *k as usize, *s)
+            }
             ValSel::FillTo(d, s) => {
                 let old = self.specs.p().live_value(key).map(|i| i.value.len()).unwrap_or(0);
                 let target = (limit.saturating_sub(key.len() + 8) as i64 + *d as i64).max(0) as usize;
@@ -670,6 +678,7 @@ impl Interp {
                 String::new(),
             ));
         }
+        let oversized = frame.body_len > self.specs.p().item_limit;
         if r.requests != 1 || r.leftover != 0 {
             return Err(mk(
                 Violation {
@@ -714,7 +723,7 @@ impl Interp {
                     rp.short(),
                 ));
             }
-            if rp.status == 3 {
+            if rp.status == 3 && !oversized {
                 return Err(mk(
                     Violation {
                         clause: "within_limit_rejected",
@@ -739,6 +748,28 @@ impl Interp {
                 cmd.short(),
                 resp.as_ref().map(|r| r.short()).unwrap_or_else(|| "(silent)".into())
             ));
+        }
+        if oversized {
+            // refused for size: exactly one 'too large' answer (quiet variants too), nothing changes
+            self.feat("oversized_request");
+            self.last = Some((cmd.clone(), resp.clone()));
+            return match &resp {
+                Some(rp) if rp.status == 3 => Ok(resp),
+                other => Err(mk(
+                    Violation {
+                        clause: "oversized_not_refused",
+                        owners: vec!["C13", "C19"],
+                        msg: format!(
+                            "{} has a body of {} bytes, above the item limit {}, but was answered {}",
+                            cmd.short(),
+                            frame.body_len,
+                            self.specs.p().item_limit,
+                            other.as_ref().map(|r| r.short()).unwrap_or_else(|| "(nothing)".into())
+                        ),
+                    },
+                    String::new(),
+                )),
+            };
         }
         let pre_live = self.specs.p().presence(&cmd.key);
         self.last = Some((cmd.clone(), resp.clone()));
